@@ -331,6 +331,8 @@ class Spec:
                                 e["exp"].append(self.steps[li])
             return
         if raised:
+            if k == "addmon" and op[3]["unique"]:
+                self.entries[op[1]].pop((op[2], op[3]["name"]), None)
             return
         if k == "reg":
             _, t, cn, cell, _hp = op
@@ -398,8 +400,12 @@ def oracle_case(case, ti):
         # --- a layer call must not fail because of monitors
         if op[0] == "lstep" and raised:
             li = op[1]
+            stale = any(e[2] in shared_deleted and sp.cells[t].get(e[0], [None])[0] == li
+                        for t in range(len(prev_named)) if sp.alive[t] for e in prev_named[t])
             if any(c[0] == li for c in multi):
                 fail("monitor_name_rebinding", j, {"what": "layer call raised", "message": msg})
+            elif stale:      # a reader was handed the (never filled / stale) data of a monitor deregistered by a shared delete
+                fail("del_cell_shared_monitor", j, {"what": "layer call raised", "message": msg})
             elif not user_reads_unbound(case, j):
                 fail("layer_step_raised", j, {"what": "layer call raised", "message": msg})
             break        # hooks after the failing one did not run: what follows is not judged
@@ -557,9 +563,14 @@ def witness_cases():
     ]
 
 
+KNOWN_KINDS = ("del_cell_shared_monitor", "monitor_name_rebinding")
+
+
 def _fails_with(case, kind):
     t = F.run_impl(IMPL, {"cases": [case]})[0]
     fs = oracle_case(case, t)
+    if kind is None:        # prefer a failure that is not an instance of a listed finding
+        fs = sorted(fs, key=lambda f: f["signature"]["kind"] in KNOWN_KINDS)
     for f in fs:
         if kind is None or f["signature"]["kind"] == kind:
             return f
